@@ -878,6 +878,65 @@ func oddNames(s Scenario) Scenario {
 	return t
 }
 
+// unicodeNameOf maps the generators' plain value names to names that start
+// with a non-ASCII letter. structType spells such a name with its first letter
+// in upper case in the struct tag ("Ärger": a capital that is not ASCII and no
+// other capital), the options spell it in lower case: names are compared case
+// insensitively, whatever the alphabet.
+var unicodeNameOf = map[string]string{"a": "ärger", "b": "ölstand", "c": "énergie", "d": "ñu", "dd": "üdd", "e": "çe"}
+
+// unicodeNames returns s with every value name replaced through unicodeNameOf.
+func unicodeNames(s Scenario) Scenario {
+	f := func(ls []Label) []Label {
+		out := make([]Label, len(ls))
+		for i, l := range ls {
+			if o, ok := unicodeNameOf[l.Name]; ok {
+				l.Name = o
+			}
+			out[i] = l
+		}
+		return out
+	}
+	t := s
+	t.Inputs = f(s.Inputs)
+	t.Target.In = f(s.Target.In)
+	t.Target.Out = f(s.Target.Out)
+	t.Convs = make([]FuncSpec, len(s.Convs))
+	for i, c := range s.Convs {
+		c.In = f(c.In)
+		c.Out = f(c.Out)
+		t.Convs[i] = c
+	}
+	return t
+}
+
+// oddSubs returns s with every subtype replaced by a free-form one (the
+// mapping is injective, so which labels match which is unchanged): a subtype
+// is an arbitrary string -- a media type, key=value, several words.
+func oddSubs(s Scenario) Scenario {
+	f := func(ls []Label) []Label {
+		out := make([]Label, len(ls))
+		for i, l := range ls {
+			if l.Sub != "" {
+				l.Sub = l.Sub + "=q " + l.Sub + "/+%"
+			}
+			out[i] = l
+		}
+		return out
+	}
+	t := s
+	t.Inputs = f(s.Inputs)
+	t.Target.In = f(s.Target.In)
+	t.Target.Out = f(s.Target.Out)
+	t.Convs = make([]FuncSpec, len(s.Convs))
+	for i, c := range s.Convs {
+		c.In = f(c.In)
+		c.Out = f(c.Out)
+		t.Convs[i] = c
+	}
+	return t
+}
+
 // sameNameUnnamed: values of one name and different UNNAMED Go types (their
 // reflect.Type.Name() is empty), one of them carrying a subtype, linked by a
 // single-input converter: n:B/json -> n:A/parsed, target n:A. Derivable, and
